@@ -257,6 +257,19 @@ func checkC05(r *core.Result) {
 		}
 		info := u.Pkg.TypesInfo
 		for _, mc := range messagesOf(u) {
+			// every message of the schema, at every nesting level, gets the generated methods (a message left out
+			// falls back to reflection silently, and the extensions declared inside it are lost to their extendee)
+			{
+				var missing []string
+				for name, fd := range map[string]*ast.FuncDecl{"Size": mc.size, "Marshal": mc.marshal, "MarshalTo": mc.marshalTo, "Unmarshal": mc.unmarshal} {
+					if fd == nil {
+						missing = append(missing, name)
+					}
+				}
+				sort.Strings(missing)
+				r.GroupOb("V-coverage", "every message of the schema has generated Size / Marshal / MarshalTo / Unmarshal", fmt.Sprintf("%s.%s [%s]", u.File.Pkg, mc.goName, u.Combo.Runtime), "corpus:"+u.File.Pkg, len(missing) == 0,
+					"no generated "+strings.Join(missing, ", ")+" for this message: the generator's walk over the (nested) messages of the file does not reach it")
+			}
 			if mc.size == nil || mc.marshalTo == nil {
 				continue
 			}
